@@ -70,7 +70,13 @@ C01Clause(I, cf, ev) ==
   IF OracleApplies(cf, ev) /\ RobustOpt(I, cf, ev.arg)
      /\ ~Optimal(I, cf, ev.arg, [path |-> ev.path, idx |-> ev.idx]) THEN "not-optimal" ELSE ""
 SkipClause(I, cf, ev) == IF OracleApplies(cf, ev) /\ ~RobustOpt(I, cf, ev.arg) THEN "nonrobust-threshold" ELSE ""
-C02Clause(I, cf, ev) == IF cf.tables /\ ~PathScoresMatchModel(I, cf, ev.path) THEN "path-score" ELSE ""
+C02Clause(I, cf, ev) ==
+  IF ~cf.tables THEN ""
+  ELSE LET bad == {j \in 1..Len(ev.path) : ~StepOK(I, cf, ev.path, j)} IN
+       IF bad = {} THEN (IF PathScoresMatchModel(I, cf, ev.path) THEN "" ELSE "path-score")     \* (equivalent; kept as a cross-check)
+       ELSE IF \E j \in bad : ~StaleStep(ev.pstamp, j) THEN "path-score"
+       ELSE IF ev.partial # 0 THEN "path-score"         \* an in-place replacement kept a field of the replaced entry (Upsert replaces it whole)
+       ELSE "path-score-stale-after-expansion"        \* every failing step has the F-stale pattern
 C03Clause(I, cf, ev) ==
   IF ev.op = "cwd" THEN "" ELSE      \* continue_with_distance returns nothing; the next re-match is checked
   LET complete == Len(ev.path) > 0 /\ ev.idx = NOf(ev) - 1
@@ -135,7 +141,10 @@ SpecStep(I, cf, ev) ==
 DriftClause(mr, ev) ==
   IF mr.R.path = << >> /\ mr.M.lat = << >> THEN ""        \* not computed (no tables)
   ELSE IF mr.R.idx # ev.idx \/ PathSig(mr.R.path) # PathSig(ev.path) THEN "result-differs-from-specification"
-  ELSE IF mr.M.lat # ev.lat THEN "lattice-differs-from-specification" ELSE ""
+  ELSE IF mr.M.lat # ev.lat THEN "lattice-differs-from-specification"
+  ELSE IF \E j \in 1..Len(ev.path) : ev.pstamp[j][1] # 0 /\ ev.pstamp[j][2] # mr.M.rnd[Key(ev.path[j])]
+       THEN "scoring-round-of-a-path-entry-differs-from-specification"
+  ELSE ""
 
 Clause(p, I, cf, ev, mr) ==
   IF ev.exc # "" THEN (IF p \in {"DRIFT", "SKIP"} THEN "" ELSE "operation-raised")
